@@ -82,7 +82,7 @@ def typed_driver(c, cases):
     import collections
     tally = collections.Counter(out)
     c.cov["file_level_refinement_theorem"] = {"single_file_inputs": len(single), "hypothesis_holds_on_the_real_parse": sum(v for k, v in tally.items() if k.startswith("plain=1")),
-                                               "of_these_only_complex_types": tally.get("plain=1 closed=ok files=1", 0), "closed_form_equals_model_result": sum(v for k, v in tally.items() if "closed=ok" in k), "closed_form_differs": sum(v for k, v in tally.items() if "closed=differs" in k)}
+                                               "of_these_only_complex_types": tally.get("plain=1 closed=ok files=1", 0), "of_these_with_derivation": tally.get("plain=1 closed=ok files=1 derivation", 0), "closed_form_equals_model_result": sum(v for k, v in tally.items() if "closed=ok" in k), "closed_form_differs": sum(v for k, v in tally.items() if "closed=differs" in k)}
     if any("closed=differs" in k for k in tally) or len(out) != len(single):
         c.proof["errors"].append("zvdrv plainfile: the closed form of c02_file_read differs from the reader model's result (or the driver failed): " + str(dict(tally))[:300] + err[-200:])
     from . import gencrate
